@@ -19,7 +19,6 @@ import (
 	"fmt"
 	"math"
 	"strconv"
-	"strings"
 	"time"
 
 	"github.com/cybergarage/go-redis/redis/glob"
@@ -181,7 +180,7 @@ func nextSetOptionArguments(cmd string, args Arguments) (SetOption, error) {
 				return opt, err
 			}
 		}
-		argStr = strings.ToUpper(argStr)
+		argStr = toUpperASCII(argStr)
 		switch argStr {
 		case "NX":
 			if opt.NX || opt.XX {
@@ -328,7 +327,7 @@ func nextRangeOptionArguments(cmd string, args Arguments) (ZRangeOption, error) 
 
 	param, err := args.NextString()
 	for err == nil {
-		switch strings.ToUpper(param) {
+		switch toUpperASCII(param) {
 		case "BYSCORE":
 			opt.BYSCORE = true
 		case "BYLEX":
@@ -369,7 +368,7 @@ func nextExpireArgument(cmd string, ttl time.Time, args Arguments) (ExpireOption
 	var err error
 	arg, err := args.NextString()
 	if err == nil {
-		switch strings.ToUpper(arg) {
+		switch toUpperASCII(arg) {
 		case "NX":
 			opt.NX = true
 		case "XX":
@@ -399,7 +398,7 @@ func nextScanArgument(cmd string, args Arguments) (ScanOption, error) {
 	var err error
 	param, err := args.NextString()
 	for err == nil {
-		switch strings.ToUpper(param) {
+		switch toUpperASCII(param) {
 		case "MATCH":
 			var pattern string
 			pattern, err = nextStringArgument(cmd, "pattern", args)
@@ -432,4 +431,28 @@ func nextScanArgument(cmd string, args Arguments) (ScanOption, error) {
 		return opt, newMissingArgumentError(cmd, "", err)
 	}
 	return opt, nil
+}
+
+// toUpperASCII returns s with the ASCII letters a-z mapped to upper case.
+// Command and option names are compared like Redis compares them: bytewise, ignoring the case
+// of ASCII letters only. strings.ToUpper also maps letters outside ASCII onto ASCII ones
+// (U+017F to 'S', U+0131 to 'I'), which would let a name Redis does not know select a command.
+func toUpperASCII(s string) string {
+	hasLower := false
+	for i := 0; i < len(s); i++ {
+		if 'a' <= s[i] && s[i] <= 'z' {
+			hasLower = true
+			break
+		}
+	}
+	if !hasLower {
+		return s
+	}
+	b := []byte(s)
+	for i, c := range b {
+		if 'a' <= c && c <= 'z' {
+			b[i] = c - ('a' - 'A')
+		}
+	}
+	return string(b)
 }
